@@ -124,6 +124,7 @@ impl NavigationState {
     pub fn reset(&mut self) {
         self.position_stack.clear();
         self.command_stack.clear();
+        self.place_markers = Default::default();      // ids of the previous expression are meaningless now
         self.where_am_i = NavigationPosition::default();
         self.reset_start_time()
         
